@@ -108,10 +108,8 @@ impl VotingBuilder {
                 set.add_move(req_signature);
             }
 
-            if let Some(ScriptWitnessType::NativeScriptWitness(script_source)) =
-                &voter_votes.script_witness
-            {
-                if let Some(required_signers) = script_source.required_signers() {
+            if let Some(script_wit) = &voter_votes.script_witness {
+                if let Some(required_signers) = script_wit.get_required_signers() {
                     set.extend_move(required_signers);
                 }
             }
